@@ -438,6 +438,7 @@ class Expect(object):
             self.add_transition(mod[1])
         elif k == 'remove_transition':
             self.remove_transition(mod[1], mod[2], mod[3])
+            self.removed = getattr(self, 'removed', set()) | {mod[1]}
         elif k in ('state_cb', 'helper_cb'):
             self.find(mod[2])[mod[1]].append(mod[3])
             if k == 'helper_cb':
@@ -470,6 +471,14 @@ class Expect(object):
 def mod_is_valid(exp, mod):
     """modifications that the library rejects by design are not part of the property (skipped)"""
     k = mod[0]
+    if exp.hier:
+        # HierarchicalMachine.remove_transition leaves husks (empty event, trigger method deleted from the
+        # models): adding to / removing from / decorating such a trigger again is nesting.py's business
+        gone = getattr(exp, 'removed', set())
+        name = mod[1]['trigger'] if k == 'add_transition' else (mod[1] if k == 'remove_transition' else
+                                                                  (mod[2] if k == 'trans_cb' else None))
+        if name in gone:
+            return False
     if k == 'remove_transition':
         scopes_with = [sc for sc, es in exp.trans.items() if any(e['trigger'] == mod[1] for e in es)]
         # only triggers that (still) exist at machine level, so that flat and nested removal agree with the
